@@ -68,6 +68,9 @@ def confirm(pid, n):
             return "demo does not pass on the clean tree", conf
         rc, out = sh("git apply %s/patch.diff" % src, wt)
         if rc != 0:
+            rc, out = sh("git apply --3way %s/patch.diff && git reset -q" % src, wt)
+            conf["applied_with_3way_merge"] = rc == 0
+        if rc != 0:
             return "patch does not apply to current HEAD: " + out[-300:], conf
         rc, out = sh("go build ./lib/... ./client/... ./wallet/... 2>&1 | grep '^#' ", wt)
         bad = [l for l in out.splitlines() if l.startswith("#") and not any(k in l for k in KNOWN_BUILD_FAIL)]
